@@ -101,6 +101,51 @@ def _foreign_xsi(env):
     return env.lenient.parse(mutate.linearize(root), UnionModels)
 
 
+def _shape_doc(env, handler="native"):
+    """xsi:type names a qualified name shared by two model classes (CircleV1 / CircleV2)."""
+    cls, events = _doc("shapes")
+    return env.parsers[handler].parse(events, cls)
+
+
+def _union_xml(env):
+    cls, events = _doc("unionmodels")
+    return env.parsers["native"].parse(events, cls)
+
+
+def _bad_int_lenient(env):
+    """An unconvertible int value: kept as given with a warning (the parser is NOT configured to fail on warnings)."""
+    _doc("basic")
+    tree = _DOCS["basic"][1].copy()
+    [n for n in mutate.nodes(tree) if n.qname == "{urn:a}i"][0].text = "n/a"
+    return env.parsers["native"].parse(mutate.linearize(tree), Basic)
+
+
+def _etree_source(env):
+    """The REAL XmlEventHandler.parse on an xml.etree Element source (pure-Python iterwalk), through the env's reused parser."""
+    from xml.etree import ElementTree as ET
+
+    from xsdata.formats.dataclass.parsers.handlers import XmlEventHandler
+
+    root = ET.Element("{urn:a}qn", {"qa": "y"})
+    ET.SubElement(root, "{urn:a}q").text = "x"
+    if "et" not in env.parsers:
+        env.parsers["et"] = NodeParser(config=ParserConfig(), context=env.ctx, handler=XmlEventHandler)
+    return env.parsers["et"].parse(root, QNames)
+
+
+def _default_ns_doc(env):
+    """A document that binds the DEFAULT namespace, parsed with the same reused real-handler parser as _etree_source."""
+    from xml.etree import ElementTree as ET
+
+    from xsdata.formats.dataclass.parsers.handlers import XmlEventHandler
+
+    if "et" not in env.parsers:
+        env.parsers["et"] = NodeParser(config=ParserConfig(), context=env.ctx, handler=XmlEventHandler)
+    import io
+
+    return env.parsers["et"].parse(io.BytesIO(b'<basic xmlns="urn:a" b="true"><i>5</i></basic>'), Basic)
+
+
 OPS = [
     ("ser ParentA", lambda e: _ser(e, ParentA(item=Child(v=1, a="q"), items=[Child(v=2)], other=4))),
     ("ser ParentB", lambda e: _ser(e, ParentB(item=Child(v=9)), "lxml")),
@@ -121,6 +166,12 @@ OPS = [
     ("parse ##other wildcard with {urn:c}item", lambda e: _wother_doc(e, "{urn:c}item")),
     ("FAIL parse ##other wildcard with {urn:a}item (own namespace)", lambda e: _wother_doc(e, "{urn:a}item")),
     ("parse UnionModels item with an xsi:type of an unrelated family", _foreign_xsi),
+    ("parse ShapeHolder: xsi:type shared by two classes", _shape_doc),
+    ("parse ShapeHolder again (lxml)", lambda e: _shape_doc(e, "lxml")),
+    ("parse UnionModels (union of models)", _union_xml),
+    ("lenient parse of Basic with an unconvertible int", _bad_int_lenient),
+    ("real native handler: parse an ElementTree element with unprefixed QName content", _etree_source),
+    ("real native handler: parse bytes that bind the default namespace", _default_ns_doc),
 ]
 # operations that build metadata of the namespace-less class Child under different inherited namespaces
 _CHILD_NS_GROUP = {0: "urn:a", 2: "urn:a", 1: "urn:b", 3: "urn:b", 4: None}
